@@ -5,8 +5,9 @@ import RlModel.Lemmas.StoreHist
 Both engine models (`Store`: row-sets + delete vectors + compaction; `MemTable`: chunks + a set of
 deleted global row indices) refine the same specification — a plain list of rows, appended to by
 INSERT and filtered by DELETE — for every history of data statements; hence they agree with each
-other as bags.  The hypothesis the proof forces (`RowsFit`: no NULL goes into a NOT NULL column) is
-not decoration: without it the statement is false for the code that exists, with a witness.
+other as bags.  The hypothesis the first version needed (`RowsFit`: no NULL goes into a NOT NULL
+column) is gone: since repository commit 652f6b6 INSERT rejects such rows on both engines, and the
+models do the same.
 -/
 namespace RlModel
 
@@ -60,11 +61,18 @@ theorem mem_delete_scan (t : MemTable) (inv : MemInv t) (p : Row → Bool) :
       show x.1 < t.chunks.flatten.length
       omega
 
-/-- the memory engine's table `tid` along a history (names resolved in a fixed catalog) -/
+/-- the memory engine's table `tid` along a history (names resolved in a fixed catalog; an INSERT is
+applied iff it names this table and passes `InsertExecutor`'s NOT NULL check, which is engine
+independent code above both engines) -/
 def memApply (c : Catalog) (tbl : List (Nat × TableDef)) (tid : Nat) : List Op → MemTable → MemTable
   | [], t => t
   | .insert n parts :: ops, t =>
-      memApply c tbl tid ops (if resolve c n = some tid ∧ (lookup tid tbl).isSome then t.insert parts else t)
+      memApply c tbl tid ops
+        (if resolve c n = some tid then
+          match lookup tid tbl with
+          | some d => if rowsOk d parts.flatten then t.insert parts else t
+          | none => t
+        else t)
   | .delete n p :: ops, t => memApply c tbl tid ops (if resolve c n = some tid then (t.delete p).1 else t)
   | _ :: ops, t => memApply c tbl tid ops t
 
@@ -77,10 +85,19 @@ theorem mem_refines_spec (c : Catalog) (tbl : List (Nat × TableDef)) (tid : Nat
   | op :: ops, t, inv => by
     cases op with
     | insert n parts =>
-      simp only [memApply, tidSpec]
-      split
-      · rw [mem_refines_spec c tbl tid ops _ (mem_insert_scan t inv parts).2, (mem_insert_scan t inv parts).1]
-      · exact mem_refines_spec c tbl tid ops t inv
+      simp only [memApply, tidSpec, insAdds]
+      by_cases h1 : resolve c n = some tid
+      · simp only [h1, if_true]
+        cases h2 : lookup tid tbl with
+        | none => simp only [List.append_nil]; exact mem_refines_spec c tbl tid ops t inv
+        | some d =>
+          simp only
+          cases hok : rowsOk d parts.flatten with
+          | false => simp only [Bool.false_eq_true, if_false, List.append_nil]; exact mem_refines_spec c tbl tid ops t inv
+          | true =>
+            simp only [if_true]
+            rw [mem_refines_spec c tbl tid ops _ (mem_insert_scan t inv parts).2, (mem_insert_scan t inv parts).1]
+      · simp only [h1, if_false, List.append_nil]; exact mem_refines_spec c tbl tid ops t inv
     | delete n p =>
       simp only [memApply, tidSpec]
       split
@@ -88,55 +105,38 @@ theorem mem_refines_spec (c : Catalog) (tbl : List (Nat × TableDef)) (tid : Nat
       · exact mem_refines_spec c tbl tid ops t inv
     | _ => exact mem_refines_spec c tbl tid ops t inv
 
-/-- **disk_refines_spec** (theorem S for data statements, see `history_exact` in C07): partial —
-under `RowsFit`. -/
-theorem disk_refines_spec_partial (h : List Op) (s : Store) (wf : Wf s) (hd : ∀ op ∈ h, op.isData = true)
-    (hfit : RowsFit s.cat s.tables h) :
+/-- **disk_refines_spec** (theorem S for data statements, see `history_exact` in C07) -/
+theorem disk_refines_spec (h : List Op) (s : Store) (wf : Wf s) (hd : ∀ op ∈ h, op.isData = true) :
     ∃ s', run (.up s) h = .up s' ∧ ∀ tid, (s'.scan tid).Perm (tidSpec s.cat s.tables tid h (s.scan tid)) :=
-  let ⟨s', h1, _, _, _, h5⟩ := data_history_exact h s wf hd hfit
+  let ⟨s', h1, _, _, _, h5⟩ := data_history_exact h s wf hd
   ⟨s', h1, h5⟩
 
-/-- **engines_equiv** (partial): two engines that agree on a table keep agreeing on it, as bags,
-through every history of INSERT / DELETE / compaction / vacuum — whatever the disk layout does. -/
-theorem engines_equiv_partial (h : List Op) (s : Store) (wf : Wf s) (hd : ∀ op ∈ h, op.isData = true)
-    (hfit : RowsFit s.cat s.tables h) (tid : Nat) (t : MemTable) (inv : MemInv t)
-    (h0 : (s.scan tid).Perm t.scan) :
+/-- **engines_equiv** (full statement, no hypothesis on the data since repository commit 652f6b6
+made INSERT reject NULL for NOT NULL columns): two engines that agree on a table keep agreeing on
+it, as bags, through every history of INSERT / DELETE / compaction / vacuum - whatever the disk
+layout does. -/
+theorem engines_equiv (h : List Op) (s : Store) (wf : Wf s) (hd : ∀ op ∈ h, op.isData = true)
+    (tid : Nat) (t : MemTable) (inv : MemInv t) (h0 : (s.scan tid).Perm t.scan) :
     ∃ s', run (.up s) h = .up s' ∧ (s'.scan tid).Perm (memApply s.cat s.tables tid h t).scan := by
-  obtain ⟨s', h1, h5⟩ := disk_refines_spec_partial h s wf hd hfit
+  obtain ⟨s', h1, h5⟩ := disk_refines_spec h s wf hd
   refine ⟨s', h1, (h5 tid).trans ?_⟩
   rw [mem_refines_spec s.cat s.tables tid h t inv]
   exact tidSpec_perm _ _ _ h _ _ h0
-
-/-- Full statement: the same, without the `RowsFit` hypothesis. -/
-def EnginesEquivFull : Prop :=
-  ∀ (h : List Op) (s : Store), Wf s → (∀ op ∈ h, op.isData = true) → ∀ (tid : Nat) (t : MemTable), MemInv t →
-    (s.scan tid).Perm t.scan →
-    ∃ s', run (.up s) h = .up s' ∧ (s'.scan tid).Perm (memApply s.cat s.tables tid h t).scan
 
 def nnTable : TableDef := ⟨"t", [⟨"a", "INT", true, false⟩]⟩
 
 /-- one table `t(a INT NOT NULL)` and nothing in it -/
 def nnStore : Store := (Store.init.createTable nnTable).1
 
-/-- **not_null_storage**: a NULL written into a NOT NULL column is read back as the type's
-default by the disk engine (its non-nullable encodings have no validity bitmap) and as NULL by the
-memory engine. -/
-theorem not_null_storage_witness :
-    ((nnStore.insert "t" [[[Val.null]]]).1.scan 0 = [[Val.i32 0]]) ∧
-    ((({ defn := nnTable } : MemTable).insert [[[Val.null]]]).scan = [[Val.null]]) := by decide
-
-theorem engines_equiv_full_unsound : ¬ EnginesEquivFull := by
-  intro h
-  have wf : Wf nnStore := by
-    constructor <;> simp [nnStore, Store.createTable, Catalog.add, Catalog.find?, Store.init, Store.commit]
-  obtain ⟨s', h1, h2⟩ := h [.insert "t" [[[Val.null]]]] nnStore wf (by intro op hop; simp at hop; subst hop; rfl)
-    0 { defn := nnTable } (by intro i hi; simp at hi) (by decide)
-  have e1 : run (.up nnStore) [.insert "t" [[[Val.null]]]] = .up (nnStore.insert "t" [[[Val.null]]]).1 := rfl
-  rw [e1] at h1
-  cases h1
-  have hm : (memApply nnStore.cat nnStore.tables 0 [.insert "t" [[[Val.null]]]] { defn := nnTable }).scan = [[Val.null]] := by decide
-  rw [hm, not_null_storage_witness.1] at h2
-  have := h2.mem_iff (a := [Val.i32 0])
-  simp at this
+/-- **not_null_storage, regression** (former finding `engines:null-in-nonnull-column`): a NULL for a
+NOT NULL column is rejected by the disk model, the memory model and the specification alike, and
+nothing is stored; what the non-nullable encodings would have stored (`storeRow`: the type's
+default, which is why the engines used to differ) can no longer be reached. -/
+theorem not_null_storage_regression :
+    ((nnStore.insert "t" [[[Val.null]]]).2 = .err "not-null" ∧ (nnStore.insert "t" [[[Val.null]]]).1.scan 0 = []) ∧
+    ((MemStore.step { cat := nnStore.cat, tables := [(0, { defn := nnTable })] } (.insert "t" [[[Val.null]]])).2 = .err "not-null") ∧
+    ((SpecSt.step { tables := [("t", nnTable, [])] } (.insert "t" [[[Val.null]]])).2 = .err "not-null") ∧
+    storeRow nnTable.cols [Val.null] = [Val.i32 0] := by
+  refine ⟨?_, ?_, ?_, ?_⟩ <;> decide
 
 end RlModel
